@@ -628,6 +628,10 @@ func (uconn *UConn) MarshalClientHelloNoECH() error {
 	for _, ext := range uconn.Extensions {
 		if pe, ok := ext.(*UtlsPaddingExtension); !ok {
 			// If not padding - just add length of extension to total length
+			if ext.Len() > 4+0xffff {
+				// extension_data is prefixed by a 16-bit length: it would wrap
+				return fmt.Errorf("tls: extension of %d bytes does not fit its length prefix", ext.Len()-4)
+			}
 			extensionsLen += ext.Len()
 		} else {
 			// If padding - process it later
@@ -643,6 +647,10 @@ func (uconn *UConn) MarshalClientHelloNoECH() error {
 		// determine padding extension presence and length
 		paddingExt.Update(headerLength + 4 + extensionsLen + 2)
 		extensionsLen += paddingExt.Len()
+	}
+
+	if extensionsLen > 0xffff {
+		return fmt.Errorf("tls: extensions of %d bytes do not fit their length prefix", extensionsLen)
 	}
 
 	helloLen := headerLength
